@@ -221,6 +221,8 @@ func checkC08(r *core.Run, p *core.Program) {
 	r.Assume("the bound through the event receiver holds when the rules validator is in the chain (the default for Unmarshal; a bare Decoder with a user receiver relies on that receiver)")
 	a := newAnalysis(p)
 	checkTaint(r, p, a, "C08.taint")
+	r.Rule("C08.accumulator", "a structural necessary condition of linear decoding time in the CTE parser: the steps that grow the listener's array buffer once per element or escape sequence (methods that store to arrayData, and the element helpers that take and return the buffer) use the buffer only in amortised-constant ways - first argument of append / Append* / bytes.NewBuffer / another such helper, len, cap, re-slicing, storing, returning; converting or copying the whole buffer in such a step (string(buf), append(other, buf...), copy) makes a string with k escapes cost k times its length.")
+	checkC08Accumulator(r, p)
 	r.Rule("C08.incremental", "a structural necessary condition of roughly linear time: the handlers that run once per array data event (the validator's chunk-data rules, the builder's and the CTE encoder's AddArrayData) do work proportional to the event - they never hand a buffer that accumulates over the whole array (a slice field appended to on the data path and only emptied when an array begins) to a scanning or validating call; such a call makes an array delivered in k pieces cost k times its length.")
 	c08Incremental(r, p)
 
@@ -441,4 +443,138 @@ func innermostBlock(body *ast.BlockStmt, pos token.Pos) (token.Pos, token.Pos) {
 		return true
 	})
 	return lo, hi
+}
+
+func checkC08Accumulator(r *core.Run, p *core.Program) {
+	pkg := p.Pkg("cte")
+	info := pkg.TypesInfo
+	isByteSlice := func(t types.Type) bool {
+		sl, ok := t.Underlying().(*types.Slice)
+		if !ok {
+			return false
+		}
+		b, ok := sl.Elem().Underlying().(*types.Basic)
+		return ok && b.Kind() == types.Uint8
+	}
+	isHelper := func(o *types.Func) bool {
+		if o == nil || o.Pkg() == nil || core.Rel(o.Pkg()) != "cte" {
+			return false
+		}
+		sig := o.Type().(*types.Signature)
+		if sig.Recv() != nil || sig.Results().Len() != 1 || !isByteSlice(sig.Results().At(0).Type()) {
+			return false
+		}
+		for i := 0; i < sig.Params().Len(); i++ {
+			if isByteSlice(sig.Params().At(i).Type()) {
+				return true
+			}
+		}
+		return false
+	}
+	n := 0
+	for _, f := range funcsOf(pkg) {
+		if !strings.HasSuffix(p.Fset.Position(f.Decl.Pos()).Filename, "/cte/parser.go") {
+			continue
+		}
+		// the accumulator of this function
+		isAcc := func(e ast.Expr) bool { return false }
+		if rn := recvNamed(f.Obj); rn != nil && rn.Obj().Name() == "cteListener" {
+			grows := false
+			ast.Inspect(f.Decl.Body, func(nd ast.Node) bool {
+				if as, ok := nd.(*ast.AssignStmt); ok {
+					for i, lhs := range as.Lhs {
+						if fld := fieldOf(info, lhs); fld != nil && fld.Name() == "arrayData" && i < len(as.Rhs) {
+							if _, isSlice := stripParens(as.Rhs[i]).(*ast.SliceExpr); !isSlice {
+								grows = true
+							}
+						}
+					}
+				}
+				return true
+			})
+			if !grows {
+				continue
+			}
+			isAcc = func(e ast.Expr) bool {
+				fld := fieldOf(info, e)
+				return fld != nil && fld.Name() == "arrayData"
+			}
+		} else if isHelper(f.Obj) {
+			sig := f.Obj.Type().(*types.Signature)
+			var params []types.Object
+			for i := 0; i < sig.Params().Len(); i++ {
+				if isByteSlice(sig.Params().At(i).Type()) {
+					params = append(params, sig.Params().At(i))
+				}
+			}
+			isAcc = func(e ast.Expr) bool {
+				id, ok := e.(*ast.Ident)
+				if !ok {
+					return false
+				}
+				for _, o := range params {
+					if info.Uses[id] == o {
+						return true
+					}
+				}
+				return false
+			}
+		} else {
+			continue
+		}
+		n++
+		bad := token.NoPos
+		what := ""
+		var stack []ast.Node
+		ast.Inspect(f.Decl.Body, func(nd ast.Node) bool {
+			if nd == nil {
+				stack = stack[:len(stack)-1]
+				return true
+			}
+			stack = append(stack, nd)
+			e, ok := nd.(ast.Expr)
+			if !ok || !isAcc(e) || len(stack) < 2 {
+				return true
+			}
+			par := stack[len(stack)-2]
+			if pe, isParen := par.(*ast.ParenExpr); isParen && len(stack) >= 3 {
+				_ = pe
+				par = stack[len(stack)-3]
+			}
+			okUse := false
+			switch x := par.(type) {
+			case *ast.AssignStmt, *ast.ReturnStmt, *ast.SliceExpr, *ast.IndexExpr:
+				okUse = true
+			case *ast.CallExpr:
+				if id, isId := x.Fun.(*ast.Ident); isId {
+					if _, isB := info.Uses[id].(*types.Builtin); isB {
+						switch id.Name {
+						case "len", "cap":
+							okUse = true
+						case "append":
+							okUse = len(x.Args) > 0 && stripParens(x.Args[0]) == e
+						}
+					}
+				}
+				if c := callee(info, x); c != nil && !okUse {
+					if strings.HasPrefix(c.Name(), "Append") || (c.Pkg() != nil && c.Pkg().Path() == "bytes" && c.Name() == "NewBuffer") || isHelper(c) {
+						okUse = true
+					}
+				}
+			}
+			if !okUse && bad == token.NoPos {
+				bad = nd.Pos()
+				if pe, isE := par.(ast.Expr); isE {
+					what = exprStr(pe)
+				} else {
+					what = exprStr(e)
+				}
+			}
+			stack = stack[:len(stack)-1]
+			return false
+		})
+		r.Check("C08.accumulator", f.Name()+"|buffer used in amortised-constant ways only", posOr(bad, f.Decl.Pos()), bad == token.NoPos,
+			"this step runs once per element or escape sequence and uses the whole accumulated buffer in `"+what+"`: the buffer is converted or copied each time, so decoding costs the number of steps times the length accumulated so far")
+	}
+	r.Floor("C08.accumulator", "buffer growth steps", n, 20)
 }
